@@ -77,3 +77,23 @@ func langDecide(c *checkCtx, what, formula, witnessHarness, msg, src string) {
 	}
 	c.extraSamples = append(c.extraSamples, sample)
 }
+
+// langInclusion: every string accepted by a source regex has the documented prefix form
+// WS* "//" WS* "@keyword" followed by end of text or a blank (unbounded, ASCII).
+func langInclusion(c *checkCtx, regexHarness, witnessHarness string, keywords map[string]string) {
+	srcs := observeStrings(c, regexHarness)
+	if srcs == nil {
+		return
+	}
+	ws := `(re.union (re.range "\u{9}" "\u{a}") (re.range "\u{c}" "\u{d}") (str.to_re " "))`
+	all := `(re.* (re.range "\u{0}" "\u{7f}"))`
+	for name, kw := range keywords {
+		a, err := eng.RegLan(srcs[name])
+		if err != nil {
+			c.incon = append(c.incon, fmt.Sprintf("RegLan translation of %s failed: %v", name, err))
+			continue
+		}
+		prefix := fmt.Sprintf(`(re.++ (re.* %s) (str.to_re "//") (re.* %s) (str.to_re %s) (re.opt (re.++ %s %s)))`, ws, ws, eng.SmtString("@"+kw), ws, all)
+		langDecide(c, "L("+name+") is inside the anchored prefix form of @"+kw, fmt.Sprintf("(and (str.in_re s %s) (not (str.in_re s %s)))", a, prefix), witnessHarness, "accepted text has the anchored lowercase @"+kw+" prefix form", srcs[name])
+	}
+}
